@@ -8,9 +8,12 @@ package main
 
 import (
 	"fmt"
+	"sort"
 	"strings"
 	"time"
 
+	"github.com/risor-io/risor"
+	"github.com/risor-io/risor/compiler"
 	"github.com/risor-io/risor/object"
 )
 
@@ -57,6 +60,40 @@ func goOutcome(out EvalOut) string {
 	return "ok\t" + ValText(out.Obj, 0) + "\t" + Hex(out.Stdout)
 }
 
+// CodeExport renders all code objects of a compiled program in the format of the oracle's
+// `compile` reply: id, instructions, constants, names; sorted by id.
+func CodeExport(code *compiler.Code) string {
+	var parts []string
+	for _, cc := range code.Flatten() {
+		var consts []string
+		for i := 0; i < cc.ConstantsCount(); i++ {
+			switch k := cc.Constant(i).(type) {
+			case int64:
+				consts = append(consts, fmt.Sprintf("i%d", k))
+			case string:
+				consts = append(consts, "s"+Hex(k))
+			case *compiler.Function:
+				consts = append(consts, "f"+k.Code().ID())
+			case float64:
+				consts = append(consts, fmt.Sprintf("d%v", k))
+			default:
+				consts = append(consts, fmt.Sprintf("?%T", k))
+			}
+		}
+		var names []string
+		for i := 0; i < cc.NameCount(); i++ {
+			names = append(names, cc.Name(i))
+		}
+		parts = append(parts, "id="+cc.ID()+";ins="+CodeText(cc)+";consts="+strings.Join(consts, ",")+";names="+strings.Join(names, ","))
+	}
+	sort.Strings(parts)
+	return strings.Join(parts, "|")
+}
+
+var c01Globals = func() string {
+	return strings.Join(risor.NewConfig().GlobalNames(), ",")
+}()
+
 func c01Nontrivial(p *N) bool {
 	k := Kinds(p)
 	forms := 0
@@ -85,12 +122,16 @@ func runC01(e *Env) {
 	batch := make([]item, 0, 256)
 	flush := func() {
 		reqs := make([]string, len(batch))
+		creqs := make([]string, len(batch))
 		for i, it := range batch {
 			reqs[i] = "C01\teval\t" + Sexp(it.p)
+			creqs[i] = "C01\tcompile\t" + Sexp(it.p) + "\t" + c01Globals
 		}
 		reps := e.O.AskBatch(reqs)
+		creps := e.O.AskBatch(creqs)
 		for i, it := range batch {
 			c01Compare(e, it.p, it.src, it.go_, reps[i])
+			c01CompareCode(e, it.p, it.src, creps[i])
 		}
 		batch = batch[:0]
 	}
@@ -166,4 +207,45 @@ func c01Compare(e *Env, p *N, src, goOut, model string) {
 		finding = "C04-ctl-under-operands"
 	}
 	e.R.Spec(Src(small), fmt.Sprintf("real pipeline: %s | source-level meaning (Lean Sem): %s", strings.ReplaceAll(g, "\t", " "), strings.ReplaceAll(m, "\t", " ")), finding)
+}
+
+// c01CompareCode: bytecode of the real compiler vs the Lean compiler model, instruction for
+// instruction, constants and names included.
+func c01CompareCode(e *Env, p *N, src, model string) {
+	code, err := CompileSrc(src)
+	goText := ""
+	if err != nil {
+		goText = "fail"
+	} else {
+		goText = "ok\t" + CodeExport(code)
+	}
+	if strings.HasPrefix(model, "fail") {
+		model = "fail"
+	}
+	if goText == model {
+		e.R.H("bytecode", "identical")
+		return
+	}
+	e.R.H("bytecode", "differs")
+	small := Shrink(p, func(q *N) bool {
+		c, err := CompileSrc(Src(q))
+		g := "fail"
+		if err == nil {
+			g = "ok\t" + CodeExport(c)
+		}
+		m := e.O.Ask("C01", "compile", Sexp(q), c01Globals)
+		if strings.HasPrefix(m, "fail") {
+			m = "fail"
+		}
+		return g != m
+	})
+	c, err := CompileSrc(Src(small))
+	g := "fail"
+	if err == nil {
+		g = CodeExport(c)
+	} else {
+		g = "fail: " + err.Error()
+	}
+	m := e.O.Ask("C01", "compile", Sexp(small), c01Globals)
+	e.R.Mismatch(Src(small), g, strings.TrimPrefix(m, "ok\t"), "compiler.Compile vs C01.compileProg (bytecode, constants, names)")
 }
